@@ -366,7 +366,7 @@ func TestVerifC05Enum(t *testing.T) {
 	}
 	stats.InfoAdd("enum_layouts", layouts)
 	stats.InfoAdd("enum_cases", cases)
-	stats.Info("enum_max_mounts", maxMounts)
+	stats.Info("enum_scope", fmt.Sprintf("<=4 services x <=2 mounts, <=%d mounts in total", maxMounts))
 	t.Logf("enumerated %d layouts, %d (layout, block) cases, %d known-finding hits (shard %d/%d, <=%d mounts)", layouts, cases, knownHits, shard, nsh, maxMounts)
 }
 
